@@ -17,6 +17,8 @@ import io
 import json
 import os
 import shutil
+import sys
+import time
 import tempfile
 import zipfile
 from collections import Counter
@@ -299,18 +301,35 @@ def p_download_valid(path, ctx):
     return "new"
 
 
+_RENDER_ZIP = {}
+
+
+def render_zip():
+    """a real collection zip for mw-render, built once per run in a fresh interpreter: the process that forks the traced
+    children must never have used sqlite or started threads itself (a lock held at fork time would be copied locked)."""
+    if "zip" not in _RENDER_ZIP:
+        import subprocess
+
+        cdir = tempfile.mkdtemp(prefix="c20-coll-", dir=str(common.BUILD))
+        code = ("import sys, contextlib, io; sys.path.insert(0, %r); from harness import build_repo; build_repo.overlay_all(); "
+                "from harness import c08\n"
+                "with contextlib.redirect_stdout(io.StringIO()), contextlib.redirect_stderr(io.StringIO()):\n"
+                "    z = c08.build_collection(424242, %r)[0]\n"
+                "print('ZIP=' + z)") % (str(common.ROOT), cdir)
+        out = subprocess.run([sys.executable, "-c", code], capture_output=True, text=True, timeout=300, cwd=str(common.ROOT),
+                             env={**os.environ, "PATH": "/venv/bin:" + os.environ.get("PATH", "")})
+        z = [ln[4:] for ln in out.stdout.splitlines() if ln.startswith("ZIP=")]
+        if not z or not os.path.exists(z[0]):
+            raise RuntimeError("could not build the collection zip for the mw-render producer: " + out.stderr[-500:])
+        _RENDER_ZIP["zip"] = z[0]
+    return _RENDER_ZIP["zip"]
+
+
 def p_render_setup(d):
     """mw-render (apps/render.py main): a real collection zip, the writer replaced by one that streams PAYLOAD to the path it is
     given - the publication protocol around the writer (mkstemp next to the output, writer, rename) is render.py's own."""
-    import contextlib
-    import io
-
-    from . import c08
-
-    cdir = os.path.join(d, "coll")
-    os.makedirs(cdir)
-    with contextlib.redirect_stdout(io.StringIO()), contextlib.redirect_stderr(io.StringIO()):
-        zip_path = c08.build_collection(424242, cdir)[0]
+    zip_path = os.path.join(d, "c.zip")
+    shutil.copy(render_zip(), zip_path)
     out = os.path.join(d, "out")
     os.makedirs(out)
     final = os.path.join(out, "book.pdf")
@@ -351,6 +370,9 @@ def p_render_valid(path, ctx):
     return "new"
 
 
+CHILD_TIMEOUT = 120
+
+
 PRODUCERS = {
     "render.main": (p_render_setup, p_render_run, p_render_valid),
     "status.dump": (p_status_setup, p_status_run, p_status_valid),
@@ -386,7 +408,19 @@ def run_child(name, scratch, fault_at=None, kill_at=None):
                 os._exit(code)
     os.close(w)
     data = b""
+    import select
+
+    deadline = time.time() + CHILD_TIMEOUT
     while True:
+        left = deadline - time.time()
+        ready = select.select([r], [], [], max(left, 0))[0] if left > 0 else []
+        if not ready:
+            os.kill(pid, 9)
+            os.waitpid(pid, 0)
+            os.close(r)
+            shutil.rmtree(d, ignore_errors=True)
+            raise common.HarnessError(f"the traced producer {name} (fault_at={fault_at}, kill_at={kill_at}) did not finish within "
+                                      f"{CHILD_TIMEOUT} s: harness problem, not a verdict")
         chunk = os.read(r, 65536)
         if not chunk:
             break
